@@ -85,6 +85,7 @@ func main() {
 }
 
 type instr struct {
+	chans   map[string]bool // names declared with a channel type or made with make(chan ...) in this file
 	fset    *token.FileSet
 	rel     string
 	funcs   []string
@@ -152,6 +153,31 @@ func (in *instr) stmt(s ast.Stmt) ast.Stmt {
 	case *ast.RangeStmt:
 		in.expr(x.X)
 		in.block(x.Body)
+		if id, ok := x.X.(*ast.Ident); ok && in.chans[id.Name] && x.Value == nil {
+			// for v := range ch { B }  ->  for { v, ok := simrt.Recv2(ch); if !ok { break }; B }
+			in.changed = true
+			okID := ast.NewIdent("_simok")
+			var recv ast.Stmt
+			lhs := []ast.Expr{ast.NewIdent("_"), okID}
+			if x.Key != nil {
+				lhs[0] = x.Key
+			}
+			if x.Tok == token.ASSIGN {
+				recv = &ast.AssignStmt{Lhs: lhs, Tok: token.ASSIGN, Rhs: []ast.Expr{simrtCall("Recv2", x.X)}}
+				x.Body.List = append([]ast.Stmt{
+					&ast.DeclStmt{Decl: &ast.GenDecl{Tok: token.VAR, Specs: []ast.Spec{&ast.ValueSpec{Names: []*ast.Ident{okID}, Type: ast.NewIdent("bool")}}}},
+					recv,
+					&ast.IfStmt{Cond: &ast.UnaryExpr{Op: token.NOT, X: ast.NewIdent("_simok")}, Body: &ast.BlockStmt{List: []ast.Stmt{&ast.BranchStmt{Tok: token.BREAK}}}},
+				}, x.Body.List...)
+			} else {
+				recv = &ast.AssignStmt{Lhs: lhs, Tok: token.DEFINE, Rhs: []ast.Expr{simrtCall("Recv2", x.X)}}
+				x.Body.List = append([]ast.Stmt{
+					recv,
+					&ast.IfStmt{Cond: &ast.UnaryExpr{Op: token.NOT, X: ast.NewIdent("_simok")}, Body: &ast.BlockStmt{List: []ast.Stmt{&ast.BranchStmt{Tok: token.BREAK}}}},
+				}, x.Body.List...)
+			}
+			return &ast.ForStmt{Body: x.Body}
+		}
 	case *ast.SwitchStmt:
 		if x.Init != nil {
 			in.exprsIn(x.Init)
@@ -300,7 +326,7 @@ func (in *instr) funcLit(f *ast.FuncLit) {
 	in.inLit--
 }
 
-var syncTypes = map[string]bool{"Once": true, "Mutex": true, "RWMutex": true, "WaitGroup": true}
+var syncTypes = map[string]bool{"Once": true, "Mutex": true, "RWMutex": true, "WaitGroup": true, "Cond": true, "NewCond": true}
 
 func (in *instr) selector(s *ast.SelectorExpr) {
 	if id, ok := s.X.(*ast.Ident); ok && id.Name == "sync" && id.Obj == nil {
@@ -331,7 +357,7 @@ func instrument(path, rel string) error {
 	if err != nil {
 		return err
 	}
-	in := &instr{fset: fset, rel: rel}
+	in := &instr{fset: fset, rel: rel, chans: chanNames(f)}
 	for _, d := range f.Decls {
 		switch x := d.(type) {
 		case *ast.FuncDecl:
@@ -393,4 +419,47 @@ func instrument(path, rel string) error {
 		return fmt.Errorf("instrumented source does not parse: %v", err)
 	}
 	return os.WriteFile(path, buf.Bytes(), 0o644)
+}
+
+// chanNames collects, syntactically, the identifiers of a file that denote
+// channels: declared with a channel type (variables, parameters, fields) or
+// assigned from make(chan ...). Used to recognise `for v := range ch`.
+func chanNames(f *ast.File) map[string]bool {
+	out := map[string]bool{}
+	isChanType := func(e ast.Expr) bool {
+		_, ok := e.(*ast.ChanType)
+		return ok
+	}
+	isMakeChan := func(e ast.Expr) bool {
+		c, ok := e.(*ast.CallExpr)
+		if !ok || len(c.Args) == 0 {
+			return false
+		}
+		id, ok := c.Fun.(*ast.Ident)
+		return ok && id.Name == "make" && isChanType(c.Args[0])
+	}
+	ast.Inspect(f, func(n ast.Node) bool {
+		switch x := n.(type) {
+		case *ast.Field:
+			if isChanType(x.Type) {
+				for _, id := range x.Names {
+					out[id.Name] = true
+				}
+			}
+		case *ast.ValueSpec:
+			for i, id := range x.Names {
+				if (x.Type != nil && isChanType(x.Type)) || (i < len(x.Values) && isMakeChan(x.Values[i])) {
+					out[id.Name] = true
+				}
+			}
+		case *ast.AssignStmt:
+			for i, l := range x.Lhs {
+				if id, ok := l.(*ast.Ident); ok && i < len(x.Rhs) && isMakeChan(x.Rhs[i]) {
+					out[id.Name] = true
+				}
+			}
+		}
+		return true
+	})
+	return out
 }
